@@ -464,6 +464,50 @@ def extract():
         if k not in mmflags:
             raise TranslatorError("MMCMP_%s not found" % k)
     facts["mmcmp_flags"] = mmflags
+    # LHA "new" decoders (-lh4- .. -lh7-): the history ring starts filled with one byte value; copy threshold
+    lhn = strip_comments(read("src/depackers/lhasa/lh_new_decoder.c"))
+    try:
+        body = func_body(lhn, "init_ring_buffer")[1]
+    except TranslatorError:
+        raise TranslatorError("lh_new_decoder.c: init_ring_buffer not found")
+    m = re.search(r"memset\s*\(\s*decoder->ringbuf\s*,\s*('(?:\\.|[^'])'|0x[0-9a-fA-F]+|\d+)\s*,\s*RING_BUFFER_SIZE\s*\)", body)
+    if not m:
+        raise TranslatorError("init_ring_buffer: the memset that fills the whole history ring was not found")
+    lit = m.group(1)
+    if lit.startswith("'"):
+        inner = lit[1:-1]
+        fill = ord(inner) if len(inner) == 1 else {"\\0": 0, "\\n": 10, "\\t": 9, "\\\\": 92}.get(inner)
+        if fill is None:
+            raise TranslatorError("init_ring_buffer: fill character %s not understood" % lit)
+    else:
+        fill = int(lit, 0)
+    m = re.search(r"#define\s+COPY_THRESHOLD\s+(\d+)", lhn)
+    if not m:
+        raise TranslatorError("lh_new_decoder.c: COPY_THRESHOLD not found")
+    facts["lh_new"] = {"fill": fill, "threshold": int(m.group(1))}
+    hb = {}
+    for nm in ("lh5", "lh6", "lh7"):
+        src = strip_comments(read("src/depackers/lhasa/%s_decoder.c" % nm))
+        m1 = re.search(r"#define\s+HISTORY_BITS\s+(\d+)", src)
+        m2 = re.search(r"#define\s+OFFSET_BITS\s+(\d+)", src)
+        if not m1 or not m2:
+            raise TranslatorError("%s_decoder.c: HISTORY_BITS / OFFSET_BITS not found" % nm)
+        hb[nm] = (int(m1.group(1)), int(m2.group(1)))
+    facts["lh_new"]["bits"] = hb
+    # ARC squeeze: tree size limit and its comparison, lookup width, window of the two-stage methods
+    au = strip_comments(read("src/depackers/arc_unpack.c"))
+    sq = {}
+    for k in ("HUFFMAN_TREE_MAX", "LOOKUP_BITS", "ARC_BUFFER_SIZE"):
+        m = re.search(r"#define\s+%s\s+(\d+)" % k, au)
+        if not m:
+            raise TranslatorError("arc_unpack.c: %s not found" % k)
+        sq[k] = int(m.group(1))
+    body = func_body(au, "arc_huffman_init")[1]
+    m = re.search(r"if\s*\(\s*!\s*arc->num_huffman\s*\|\|\s*arc->num_huffman\s*(>=|>)\s*HUFFMAN_TREE_MAX\s*\)", body)
+    if not m:
+        raise TranslatorError("arc_huffman_init: node count test not recognised")
+    sq["inclusive"] = (m.group(1) == ">")
+    facts["squeeze"] = sq
     # xz dictionary cap
     xz = strip_comments(read("src/depackers/unxz.c"))
     m = re.search(r"#define\s+XZ_MAX_DICT\s+\(\s*(\d+)\s*<<\s*(\d+)\s*\)", xz)
@@ -578,6 +622,19 @@ def render(f):
     L.append("def mmFlagDelta : Nat := %d" % mf["DELTA"])
     L.append("def mmFlag16Bit : Nat := %d" % mf["16BIT"])
     L.append("def mmFlagAbs16 : Nat := %d" % mf["ABS16"])
+    L.append("")
+    ln = f["lh_new"]
+    L.append("/-- LHA -lh4-..-lh7- (lh_new_decoder.c): `init_ring_buffer` fills the history with this byte; first copy length -/")
+    L.append("def lhNewFill : Nat := %d" % ln["fill"])
+    L.append("def lhCopyThreshold : Nat := %d" % ln["threshold"])
+    L.append("/-- (HISTORY_BITS, OFFSET_BITS) of lh5 (also lh4), lh6, lh7 -/")
+    L.append("def lhNewBits : List (Nat × Nat) := [%s]" % ", ".join("(%d, %d)" % ln["bits"][k] for k in ("lh5", "lh6", "lh7")))
+    sq = f["squeeze"]
+    L.append("/-- ARC squeeze (arc_unpack.c): `num_huffman > HUFFMAN_TREE_MAX` refuses (inclusive = the limit itself is accepted) -/")
+    L.append("def sqTreeMax : Nat := %d" % sq["HUFFMAN_TREE_MAX"])
+    L.append("def sqTreeMaxInclusive : Bool := %s" % ("true" if sq["inclusive"] else "false"))
+    L.append("def sqLookupBitsC : Nat := %d" % sq["LOOKUP_BITS"])
+    L.append("def arcBufferSizeC : Nat := %d" % sq["ARC_BUFFER_SIZE"])
     L.append("")
     L.append("/-- MD5Init state -/")
     L.append("def md5Init : List UInt32 := [%s]" % ", ".join("0x%08x" % x for x in f["md5init"]))
